@@ -24,6 +24,7 @@ impl PanicInfo {
 
 thread_local! {
     static LAST_PANIC: RefCell<Option<PanicInfo>> = const { RefCell::new(None) };
+    static GUARD_DEPTH: std::cell::Cell<u32> = const { std::cell::Cell::new(0) };
 }
 
 fn first_crate_frame(bt: &str) -> String {
@@ -58,6 +59,10 @@ pub fn install_panic_hook() {
         let location = info.location().map(|l| format!("{}:{}", l.file(), l.line())).unwrap_or_default();
         let bt = std::backtrace::Backtrace::force_capture().to_string();
         let func = first_crate_frame(&bt);
+        if GUARD_DEPTH.with(|d| d.get()) == 0 {
+            // a panic outside any monitor is a harness bug: make it visible
+            eprintln!("UNGUARDED PANIC: {msg} at {location}\n{bt}");
+        }
         LAST_PANIC.with(|p| *p.borrow_mut() = Some(PanicInfo { msg, location, func }));
     }));
 }
@@ -65,7 +70,10 @@ pub fn install_panic_hook() {
 /// Runs `f`, converting a panic into Err(PanicInfo).
 pub fn guard<R>(f: impl FnOnce() -> R) -> Result<R, PanicInfo> {
     LAST_PANIC.with(|p| *p.borrow_mut() = None);
-    match std::panic::catch_unwind(std::panic::AssertUnwindSafe(f)) {
+    GUARD_DEPTH.with(|d| d.set(d.get() + 1));
+    let r = std::panic::catch_unwind(std::panic::AssertUnwindSafe(f));
+    GUARD_DEPTH.with(|d| d.set(d.get() - 1));
+    match r {
         Ok(r) => Ok(r),
         Err(_) => Err(LAST_PANIC.with(|p| p.borrow_mut().take()).unwrap_or(PanicInfo {
             msg: "<panic without hook info>".into(),
